@@ -44,6 +44,11 @@ TEXT = {
   technique='fault enumeration over generated (old,new) GPT pairs: the WriteAt/Sync log of Table.Write is replayed into every crash state (epoch prefix x sector-subset family, exhaustive 2^n for n<=12) and partition.Read must return exactly old or exactly new',
   level_text='For each generated pair every crash state of the stated family is enumerated and checked; pairs themselves are sampled by rapid. Fault enumeration: complete inside the family per pair, not over all pairs.',
   level_note='Crash model = per-logical-sector persistence inside one sync epoch, strict ordering across Sync(); the device records Sync() via the same type assertion the library uses for *os.File.'),
+ 'C12': dict(
+  design_ref='DESIGN.md §4 C12',
+  technique='property-based testing: generated (type, size incl. FAT cluster thresholds, whole disk / GPT / MBR partition, stale previous filesystem or garbage, label) cases created through Disk.CreateFilesystem and re-opened from the device bytes; oracle = table type, filesystem type, label and probe-file contents, blank ranges unrecognised',
+  level_text='Generated search with a round-trip recognition oracle over configurations. Exploration.',
+  level_note='Trusts the harness device; stale content is produced by the library itself.'),
  'C13': dict(
   design_ref='DESIGN.md §4 C13',
   technique='property-based testing: generated GPT/MBR geometries (near start, straddling and beyond 4 GiB on a sparse device, physical != logical sectors) x readers of shorter/equal/longer length delivering odd pieces, (0,nil) and (n,EOF); oracle = device write log range check + byte comparison + error-type rules; thorough streams a >4 GiB partition against a synthetic verifying pattern region',
